@@ -7,6 +7,7 @@ import (
 	"os"
 	"runtime"
 	"strings"
+	"time"
 
 	"github.com/tetratelabs/wazero"
 	"github.com/tetratelabs/wazero/api"
@@ -199,8 +200,17 @@ type engine struct {
 	name   string
 	rt     wazero.Runtime
 	cm     [4]wazero.CompiledModule // plain, peer, start-section, config-start
+	cmShm  [2]wazero.CompiledModule // owner and importer of the shared memory
 	small  []byte
 	active *runner
+}
+
+func engineConfig(name string) wazero.RuntimeConfig {
+	cfg := wazero.NewRuntimeConfigInterpreter()
+	if name == "compiler" {
+		cfg = wazero.NewRuntimeConfigCompiler()
+	}
+	return cfg.WithCoreFeatures(api.CoreFeaturesV2 | experimental.CoreFeaturesThreads)
 }
 
 var engines []*engine
@@ -209,14 +219,16 @@ func getEngines() []*engine {
 	if engines != nil {
 		return engines
 	}
-	ctx := context.Background()
 	for _, name := range []string{"interpreter", "compiler"} {
-		cfg := wazero.NewRuntimeConfigInterpreter()
-		if name == "compiler" {
-			cfg = wazero.NewRuntimeConfigCompiler()
-		}
-		cfg = cfg.WithCoreFeatures(api.CoreFeaturesV2 | experimental.CoreFeaturesThreads)
-		e := &engine{name: name, rt: wazero.NewRuntimeWithConfig(ctx, cfg)}
+		engines = append(engines, newEngine(name))
+	}
+	return engines
+}
+
+func newEngine(name string) *engine {
+	ctx := context.Background()
+	{
+		e := &engine{name: name, rt: wazero.NewRuntimeWithConfig(ctx, engineConfig(name))}
 		wasi_snapshot_preview1.MustInstantiate(ctx, e.rt)
 		_, err := e.rt.NewHostModuleBuilder("env").
 			NewFunctionBuilder().WithGoModuleFunction(api.GoModuleFunc(e.hop), []api.ValueType{api.ValueTypeI32}, []api.ValueType{api.ValueTypeI32}).Export("hop").
@@ -245,10 +257,16 @@ func getEngines() []*engine {
 			}
 			e.cm[i] = cm
 		}
+		for i := range e.cmShm {
+			cm, err := e.rt.CompileModule(ctx, buildShm(i == 1))
+			if err != nil {
+				panic(fmt.Sprintf("c06: shared-memory template %d rejected by %s: %v", i, name, err))
+			}
+			e.cmShm[i] = cm
+		}
 		e.small = buildGuest(guestOpts{Small: true})
-		engines = append(engines, e)
+		return e
 	}
-	return engines
 }
 
 var nestedNames = []string{"nest", "via_peer", "inc", "trap", "rec", "ghp", "gexit", "obs", "ighp", "igexit", "iobs", "vp_ghp", "vp_gexit", "vp_obs"}
@@ -277,7 +295,7 @@ func (e *engine) sawModule(mod api.Module) {
 	r.modSeen = append(r.modSeen, seen)
 }
 
-var topNames = []string{"get", "store", "load", "tset", "tcall", "tprobe", "tnull"}
+var topNames = []string{"get", "store", "load", "tset", "tcall", "tprobe", "tnull", "aprobe"}
 
 type rinst struct {
 	mod    api.Module
@@ -302,6 +320,16 @@ func newRinst(mod api.Module) *rinst {
 	return ri
 }
 
+func newShmRinst(mod api.Module) *rinst {
+	ri := &rinst{mod: mod, fns: map[string][]api.Function{}}
+	for _, n := range []string{"ainc", "atrap", "aprobe"} {
+		for l := 0; l < nLevels; l++ {
+			ri.fns[n] = append(ri.fns[n], mod.ExportedFunction(n))
+		}
+	}
+	return ri
+}
+
 type finding struct {
 	Sig    string `json:"sig"`
 	Detail string `json:"detail"`
@@ -313,6 +341,9 @@ type runner struct {
 	eng      *engine
 	ctx      context.Context
 	inst     [nSlot]*rinst
+	shm      [2]*rinst // owner and importer of the shared memory
+	hung     bool      // a call did not return: this runner's runtime is abandoned
+	inconcl  []string
 	cur      *op
 	hostSeen []string
 	modSeen  []string // modules handed to the host functions during the current operation
@@ -349,12 +380,14 @@ func (e *engine) hop(ctx context.Context, mod api.Module, stack []uint64) {
 	called := true
 	if l := s.Leaf; l != nil {
 		var t *rinst
-		if l.Kind != "ok" && l.Kind != "hp" && l.Kind != "hexit" {
+		if l.Kind != "ok" && l.Kind != "hp" && l.Kind != "hexit" && l.Kind != "strap" {
 			t = r.inst[l.Target]
 		}
 		switch l.Kind {
 		case "ok":
 			called = false
+		case "strap":
+			_, err = r.call(r.shm[l.Which].fns["atrap"][level+1], uint64(l.TrapK), 0)
 		case "hp":
 			hostPanics[l.HK].Do()
 		case "hexit":
@@ -487,6 +520,10 @@ func (r *runner) exec(o *op) (res []uint64, err error) {
 		return nil, r.instantiate(o.Slot, o.Small)
 	case "close":
 		return nil, ri.mod.CloseWithExitCode(ctx, o.Code)
+	case "sinc":
+		return r.call(r.shm[o.Which].fns["ainc"][0])
+	case "strap":
+		return r.call(r.shm[o.Which].fns["atrap"][0], uint64(o.K), 0)
 	case "start":
 		cm, cfg := r.eng.cm[2], wazero.NewModuleConfig().WithName("tmp").WithStartFunctions()
 		if o.Cfg {
@@ -630,9 +667,111 @@ func (r *runner) probe(i int, o *op, failing bool) string {
 			}
 			fmt.Fprintf(&sb, " c%v", v)
 		}
-		sb.WriteString("]")
+		// atomic instructions on the same memory: through the api.Function used all
+		// along and through a freshly fetched one
+		var av [2][]uint64
+		var aerr [2]error
+		if !r.guarded(i, o, fmt.Sprintf("atomic probe of slot %d", s), func() {
+			av[0], aerr[0] = ri.fns["aprobe"][0].Call(ctx, uint64(probeAddrs[0]))
+			av[1], aerr[1] = ri.mod.ExportedFunction("aprobe").Call(ctx, uint64(probeAddrs[1]))
+		}, func(ctl *runner) {
+			ctl.inst[slotB].fns["aprobe"][0].Call(ctx, uint64(probeAddrs[0]))
+		}) {
+			return sb.String()
+		}
+		for k := range av {
+			if aerr[k] != nil || len(av[k]) != 1 || av[k][0] != want.Cells[k] {
+				bad("atomic-probe", fmt.Sprintf("aprobe(%d) = %v, %v; model says %#x", probeAddrs[k], av[k], aerr[k], want.Cells[k]))
+			}
+		}
+		sb.WriteString(" a]")
 	}
+	// the shared memory: same api.Function, a fresh one, and the other instance sharing it
+	var sv [3][]uint64
+	var serr [3]error
+	if !r.guarded(i, o, "atomic probe of the shared memory", func() {
+		sv[0], serr[0] = r.shm[0].fns["aprobe"][0].Call(ctx, 0)
+		sv[1], serr[1] = r.shm[0].mod.ExportedFunction("aprobe").Call(ctx, 0)
+		sv[2], serr[2] = r.shm[1].fns["aprobe"][0].Call(ctx, 0)
+	}, func(ctl *runner) {
+		ctl.shm[0].fns["aprobe"][0].Call(ctx, 0)
+		ctl.shm[1].fns["aprobe"][0].Call(ctx, 0)
+	}) {
+		return sb.String()
+	}
+	for k := range sv {
+		if serr[k] != nil || len(sv[k]) != 1 || sv[k][0] != o.AfterShm {
+			r.report(i, fmt.Sprintf("state:%s:%s:shared-memory", r.eng.name, after),
+				fmt.Sprintf("op %d %s: atomic probe %d of the shared memory = %v, %v; model says %#x", i, o.desc(), k, sv[k], serr[k], o.AfterShm))
+		}
+	}
+	fmt.Fprintf(&sb, "[shm %d]", o.AfterShm)
 	return sb.String()
+}
+
+// hangBound is generous: every guarded call takes microseconds to (for stack
+// overflows on a loaded machine) seconds.
+const hangBound = 20 * time.Second
+
+func waitDone(done chan struct{}, d time.Duration) bool {
+	select {
+	case <-done:
+		return true
+	case <-time.After(d):
+		return false
+	}
+}
+
+// guarded runs f and reports whether it returned. If it does not return within
+// hangBound, the control (the same probe on a fresh runtime of the same
+// engine, given the same bound) decides: control returns and f still has not
+// after another hangBound -> violation post-failure-probe-hangs; control does
+// not return either -> inconclusive. Either way this runner is abandoned.
+func (r *runner) guarded(i int, o *op, what string, f func(), control func(ctl *runner)) bool {
+	done := make(chan struct{})
+	go func() {
+		defer close(done)
+		f()
+	}()
+	if waitDone(done, hangBound) {
+		return true
+	}
+	ctlDone := make(chan struct{})
+	go func() {
+		defer close(ctlDone)
+		ctx := context.Background()
+		ce := newEngine(r.eng.name)
+		defer ce.rt.Close(ctx)
+		ctl := &runner{eng: ce, ctx: ctx}
+		ce.active = ctl
+		if ctl.instantiate(slotB, false) != nil || ctl.instantiateShm() != nil {
+			select {} // control unusable: never returns -> inconclusive
+		}
+		control(ctl)
+	}()
+	ctlOK := waitDone(ctlDone, hangBound)
+	if waitDone(done, hangBound) {
+		return true // merely slow
+	}
+	r.hung = true
+	if ctlOK {
+		r.report(i, fmt.Sprintf("post-failure-probe-hangs:%s:%s", r.eng.name, failLabel(o)),
+			fmt.Sprintf("op %d %s (outcome %s): %s did not return within %v although the same probe on a fresh %s runtime returned", i, o.desc(), o.WantClass, what, 2*hangBound, r.eng.name))
+	} else {
+		r.inconcl = append(r.inconcl, "probe-timeout-without-control")
+	}
+	return false
+}
+
+func (r *runner) instantiateShm() error {
+	for k := range r.shm {
+		mod, err := r.eng.rt.InstantiateModule(r.ctx, r.eng.cmShm[k], wazero.NewModuleConfig().WithName(shmNames[k]).WithStartFunctions())
+		if err != nil {
+			return err
+		}
+		r.shm[k] = newShmRinst(mod)
+	}
+	return nil
 }
 
 func b2u(b bool) uint64 {
@@ -648,18 +787,44 @@ func runHistory(e *engine, ops []*op, probeSel func(i int) bool, log bool) *runn
 	r := &runner{eng: e, ctx: context.Background(), ops: ops, log: log}
 	e.active = r
 	defer func() {
+		if r.hung {
+			// a goroutine is stuck inside this runtime: leave it alone, later histories get fresh runtimes
+			engines = nil
+			return
+		}
 		e.active = nil
 		for _, ri := range r.inst {
 			if ri != nil {
 				ri.mod.Close(r.ctx)
 			}
 		}
+		for _, ri := range r.shm {
+			if ri != nil {
+				ri.mod.Close(r.ctx)
+			}
+		}
 	}()
+	if err := r.instantiateShm(); err != nil {
+		r.report(0, "instantiate-failed:"+e.name+":shared-memory-pair", err.Error())
+		return r
+	}
 	for i, o := range ops {
 		if log {
 			fmt.Fprintf(os.Stderr, "C06-OP %s %d %s/%s:%s\n", e.name, i, o.Kind, failLabel(o), where(o))
 		}
-		res, err := r.exec(o)
+		var res []uint64
+		var err error
+		opDone := make(chan struct{})
+		go func() {
+			defer close(opDone)
+			res, err = r.exec(o)
+		}()
+		if !waitDone(opDone, 5*hangBound) {
+			// no control for a whole operation: not decidable here
+			r.hung = true
+			r.inconcl = append(r.inconcl, "operation-did-not-return")
+			break
+		}
 		got := classify(err)
 		line := fmt.Sprintf("%d %s -> %s", i, o.Kind, got)
 		label := fmt.Sprintf("%s/%s:%s", o.Kind, failLabel(o), where(o))
@@ -688,6 +853,9 @@ func runHistory(e *engine, ops []*op, probeSel func(i int) bool, log bool) *runn
 			line += " | " + r.probe(i, o, failing)
 		}
 		r.trans = append(r.trans, line)
+		if r.hung {
+			break
+		}
 		if len(r.findings) > 0 {
 			// everything later in this history would be a consequence of the first deviation
 			break
